@@ -1,7 +1,7 @@
 (* DomFacts.v — proofs about the value-level object model (Dom.v) and the operation interpreter (DomOps.v):
    properties C13 (generated statistics), C18 (isolation, observers do not mutate), C19 (typed attributes,
    structural equality).  Statements are collected in props/C13.v, props/C18.v, props/C19.v. *)
-From Coq Require Import List Arith NArith ZArith Bool Strings.Byte Lia Permutation.
+From Coq Require Import List Arith NArith ZArith Bool Strings.Byte Lia Permutation Sorted.
 From Coq Require Strings.String.
 From DX Require Import Bytes Res Codec Text Sections Header Json Reader Writer Hunks Dom DomOps.
 From DXGen Require GenSections GenText.
@@ -1934,3 +1934,405 @@ Definition ex_ops : list op :=
    OSet 1 PMain (B "version") (S_ "9.9");        (* raises: not a valid choice *)
    OAddChange 1 [(B "bogus", WInt 1)];            (* raises: unknown attribute *)
    OMetaPut 0 (PFile 0 0) (skey "path") (JStr (skey "a")); OStats 0; OToBytes 0; OEq 0 1; OToBytes 0].
+
+(* ================================================================================================ *)
+(* C19_eq_bytes_partial — part 1: json.dumps(sort_keys=True) does not depend on the order of dict keys *)
+(* ================================================================================================ *)
+Lemma text_leb_total : forall a b, text_leb a b = true \/ text_leb b a = true.
+Proof.
+  unfold text_leb. induction a as [|x a IH]; destruct b as [|y b]; cbn; auto.
+  destruct (N.ltb_spec x y), (N.ltb_spec y x); auto; try lia.
+  assert (x = y) by lia. subst. rewrite N.eqb_refl. apply IH.
+Qed.
+Lemma text_leb_trans : forall a b c, text_leb a b = true -> text_leb b c = true -> text_leb a c = true.
+Proof.
+  unfold text_leb. induction a as [|x a IH]; destruct b as [|y b]; destruct c as [|z c]; cbn; auto; try discriminate.
+  destruct (N.ltb_spec x y), (N.ltb_spec y z), (N.ltb_spec x z); auto; try lia;
+    destruct (N.eqb_spec x y), (N.eqb_spec y z), (N.eqb_spec x z); auto; try discriminate; try lia.
+  apply IH.
+Qed.
+Lemma text_leb_antisym : forall a b, text_leb a b = true -> text_leb b a = true -> a = b.
+Proof.
+  unfold text_leb. induction a as [|x a IH]; destruct b as [|y b]; cbn; auto; try discriminate.
+  destruct (N.ltb_spec x y), (N.ltb_spec y x); try lia; try discriminate;
+    destruct (N.eqb_spec x y), (N.eqb_spec y x); try discriminate; try lia.
+  intros. f_equal; auto.
+Qed.
+
+Section SortKb.
+  Context {V : Type}.
+  Definition kleb (a b : text * V) : bool := text_leb (fst a) (fst b).
+  Definition kle (a b : text * V) : Prop := kleb a b = true.
+
+  Lemma insert_perm : forall x l, Permutation (insert_sorted kleb x l) (x :: l).
+  Proof.
+    induction l as [|y l IH]; cbn; auto. destruct (kleb x y); auto.
+    eapply perm_trans; [apply perm_skip; exact IH | apply perm_swap].
+  Qed.
+  Lemma isort_perm : forall l, Permutation (isort kleb l) l.
+  Proof.
+    induction l as [|x l IH]; cbn; auto. eapply perm_trans; [apply insert_perm | apply perm_skip; exact IH].
+  Qed.
+  Lemma insert_sorted_ss : forall x l, StronglySorted kle l -> StronglySorted kle (insert_sorted kleb x l).
+  Proof.
+    induction l as [|y l IH]; cbn; intro S.
+    - constructor; auto.
+    - inversion S as [|? ? S1 F1]; subst. destruct (kleb x y) eqn:E.
+      + constructor; auto. constructor; auto. eapply Forall_impl; [|exact F1].
+        intros z Z. unfold kle, kleb in *. eapply text_leb_trans; eauto.
+      + constructor; auto. apply (Permutation_Forall (Permutation_sym (insert_perm x l))). constructor; auto.
+        unfold kle, kleb in *. destruct (text_leb_total (fst x) (fst y)); congruence.
+  Qed.
+  Lemma isort_ss : forall l, StronglySorted kle (isort kleb l).
+  Proof. induction l as [|x l IH]; cbn; [constructor | apply insert_sorted_ss; auto]. Qed.
+
+  Lemma same_key_same : forall (l : list (text * V)) x y, NoDup (map fst l) -> In x l -> In y l -> fst x = fst y -> x = y.
+  Proof.
+    induction l as [|z l IH]; cbn; intros x y ND Ix Iy E; [tauto|].
+    inversion ND as [|? ? N1 N2]; subst. destruct Ix as [<-|Ix], Iy as [<-|Iy]; auto.
+    - exfalso. apply N1. rewrite E. apply in_map; auto.
+    - exfalso. apply N1. rewrite <- E. apply in_map; auto.
+  Qed.
+  Lemma ss_perm_unique : forall l l', StronglySorted kle l -> StronglySorted kle l' -> Permutation l l' ->
+    NoDup (map fst l) -> l = l'.
+  Proof.
+    induction l as [|x l IH]; intros l' S S' P ND.
+    - apply Permutation_nil in P. auto.
+    - destruct l' as [|y l']; [apply Permutation_sym, Permutation_nil in P; discriminate|].
+      inversion S as [|? ? S1 F1]; subst. inversion S' as [|? ? S1' F1']; subst.
+      assert (Ix : In x (y :: l')) by (eapply Permutation_in; [exact P | left; auto]).
+      assert (Iy : In y (x :: l)) by (eapply Permutation_in; [apply Permutation_sym; exact P | left; auto]).
+      assert (Rxy : kle x y \/ x = y).
+      { destruct Iy as [->|Iy]; auto. left. rewrite Forall_forall in F1. auto. }
+      assert (Ryx : kle y x \/ x = y).
+      { destruct Ix as [->|Ix]; auto. left. rewrite Forall_forall in F1'. auto. }
+      assert (E : x = y).
+      { destruct Rxy as [Rxy|]; auto. destruct Ryx as [Ryx|]; auto.
+        apply (same_key_same (x :: l)); auto; [left; auto|]. apply text_leb_antisym; auto. }
+      subst y. f_equal. apply IH; auto.
+      + eapply Permutation_cons_inv; eauto.
+      + inversion ND; auto.
+  Qed.
+  Lemma isort_perm_eq : forall l l', Permutation l l' -> NoDup (map fst l) -> isort kleb l = isort kleb l'.
+  Proof.
+    intros l l' P ND. apply ss_perm_unique; try apply isort_ss.
+    - eapply perm_trans; [apply isort_perm|]. eapply perm_trans; [exact P|]. apply Permutation_sym, isort_perm.
+    - eapply Permutation_NoDup; [|exact ND]. apply Permutation_map. apply Permutation_sym, isort_perm.
+  Qed.
+End SortKb.
+
+(* the two local loops of Json.dump, named *)
+Definition dump_items (lvl : nat) : list json -> res (list bytes) :=
+  fix items (l : list json) : res (list bytes) :=
+    match l with
+    | [] => Ok []
+    | x :: t => do a <- dump (S lvl) x; do b <- items t; Ok (a :: b)
+    end.
+Definition dump_kv (lvl : nat) : list (text * json) -> res (list (text * bytes)) :=
+  fix items (l : list (text * json)) : res (list (text * bytes)) :=
+    match l with
+    | [] => Ok []
+    | (k, v) :: t => do a <- dump (S lvl) v; do b <- items t; Ok ((k, a) :: b)
+    end.
+Definition render_list (lvl : nat) (body : list bytes) : bytes :=
+  B "[" ++ nl_indent (S lvl) ++ join_items (B "," ++ nl_indent (S lvl)) body ++ nl_indent lvl ++ B "]".
+Definition render_obj (lvl : nat) (body : list (text * bytes)) : bytes :=
+  B "{" ++ nl_indent (S lvl)
+    ++ join_items (B "," ++ nl_indent (S lvl)) (map (fun p => dump_str (fst p) ++ B ": " ++ snd p) (sort_kb body))
+    ++ nl_indent lvl ++ B "}".
+Lemma dump_list_eq : forall lvl l, dump lvl (JList l) =
+  match l with [] => Ok (B "[]") | _ => do body <- dump_items lvl l; Ok (render_list lvl body) end.
+Proof. intros lvl [|x l]; reflexivity. Qed.
+Lemma dump_obj_eq : forall lvl kv, dump lvl (JObj kv) =
+  match kv with [] => Ok (B "{}") | _ => do body <- dump_kv lvl kv; Ok (render_obj lvl body) end.
+Proof. intros lvl [|x l]; reflexivity. Qed.
+
+(* a value without unserialisable leaves always dumps; [dmp] is then the dump as a total function *)
+Definition dmp (lvl : nat) (j : json) : bytes := match dump lvl j with Ok b => b | Err _ => [] end.
+Lemma json_nobool_nobad : forall j, json_nobool j = true -> json_nobad j = true.
+Proof.
+  induction j using json_ind'; intro NB; auto; try discriminate.
+  - pose proof (json_all_list _ _ NB) as F. unfold json_nobad. cbn. apply forallb_forall. intros x I.
+    rewrite Forall_forall in H, F. apply H; auto.
+  - pose proof (json_all_obj _ _ NB) as F. unfold json_nobad. cbn. apply forallb_forall. intros x I.
+    rewrite Forall_forall in H, F. apply H; auto.
+Qed.
+Lemma dump_ok : forall j, json_nobad j = true -> forall lvl, dump lvl j = Ok (dmp lvl j).
+Proof.
+  induction j using json_ind'; intros NB lvl; try reflexivity; try discriminate.
+  - destruct b; reflexivity.
+  - unfold dmp. rewrite dump_list_eq. destruct l as [|x l]; auto.
+    assert (X : exists body, dump_items lvl (x :: l) = Ok body); [|destruct X as [body ->]; reflexivity].
+    apply json_all_list in NB. generalize (x :: l) H NB. clear. induction 1 as [|y l Hy F IH]; intro NB.
+    + exists []. reflexivity.
+    + inversion NB; subst. destruct (IH H2) as [body E]. exists (dmp (S lvl) y :: body).
+      change (dump_items lvl (y :: l)) with (do a <- dump (S lvl) y; do b <- dump_items lvl l; Ok (a :: b)).
+      rewrite Hy, E; auto.
+  - unfold dmp. rewrite dump_obj_eq. destruct kv as [|x l]; auto.
+    assert (X : exists body, dump_kv lvl (x :: l) = Ok body); [|destruct X as [body ->]; reflexivity].
+    apply json_all_obj in NB. generalize (x :: l) H NB. clear. induction 1 as [|[k y] l Hy F IH]; intro NB.
+    + exists []. reflexivity.
+    + inversion NB; subst. destruct (IH H2) as [body E]. exists ((k, dmp (S lvl) y) :: body).
+      change (dump_kv lvl ((k, y) :: l)) with (do a <- dump (S lvl) y; do b <- dump_kv lvl l; Ok ((k, a) :: b)).
+      cbn in Hy. rewrite Hy, E; auto.
+Qed.
+Lemma dump_items_ok : forall lvl l, Forall (fun x => json_nobad x = true) l -> dump_items lvl l = Ok (map (dmp (S lvl)) l).
+Proof.
+  induction 1 as [|y l Hy F IH]; auto.
+  change (dump_items lvl (y :: l)) with (do a <- dump (S lvl) y; do b <- dump_items lvl l; Ok (a :: b)).
+  rewrite dump_ok, IH; auto.
+Qed.
+Lemma dump_kv_ok : forall lvl l, Forall (fun p => json_nobad (snd p) = true) l ->
+  dump_kv lvl l = Ok (map (fun p => (fst p, dmp (S lvl) (snd p))) l).
+Proof.
+  induction 1 as [|[k y] l Hy F IH]; auto.
+  change (dump_kv lvl ((k, y) :: l)) with (do a <- dump (S lvl) y; do b <- dump_kv lvl l; Ok ((k, a) :: b)).
+  cbn in Hy. rewrite dump_ok, IH; auto.
+Qed.
+
+(* values without booleans, with unique dict keys *)
+Definition json_strict (j : json) : bool := json_keys_ok j && json_nobool j.
+
+Theorem json_dump_eq_invariant : forall a b, json_strict a = true -> json_strict b = true -> json_eq a b = true ->
+  forall lvl, dump lvl a = dump lvl b.
+Proof.
+  induction a using json_ind'; intros j SA SB E lvl; destruct j; try discriminate E;
+    unfold json_strict in SA, SB; apply andb_true_iff in SA as [KA NA]; apply andb_true_iff in SB as [KB NB]; try discriminate.
+  - reflexivity.
+  - cbn in E. apply Z.eqb_eq in E. subst. reflexivity.
+  - cbn in E. apply beq_eq in E. subst. reflexivity.
+  - cbn in E. apply teq_eq in E. subst. reflexivity.
+  - rewrite json_eq_list in E. apply list_eq2_Forall2 in E.
+    rewrite !dump_list_eq.
+    pose proof (json_all_list _ _ KA) as KAl. pose proof (json_all_list _ _ KB) as KBl.
+    pose proof (json_all_list _ _ NA) as NAl. pose proof (json_all_list _ _ NB) as NBl.
+    assert (X : dump_items lvl l = dump_items lvl l0).
+    { clear KA KB NA NB. revert H KAl NAl KBl NBl. induction E as [|x y l l0 Exy F IH]; intros H KAl NAl KBl NBl; auto.
+      inversion H; subst. inversion KAl; subst. inversion NAl; subst. inversion KBl; subst. inversion NBl; subst.
+      change (dump_items lvl (x :: l)) with (do a <- dump (S lvl) x; do b <- dump_items lvl l; Ok (a :: b)).
+      change (dump_items lvl (y :: l0)) with (do a <- dump (S lvl) y; do b <- dump_items lvl l0; Ok (a :: b)).
+      rewrite (H2 y), IH; auto; unfold json_strict; apply andb_true_iff; auto. }
+    inversion E; subst; auto. rewrite X. reflexivity.
+  - rewrite json_eq_obj in E.
+    pose proof (json_all_here _ _ KA) as UA. cbn in UA. apply tkeys_unique_NoDup in UA.
+    pose proof (json_all_here _ _ KB) as UB. cbn in UB. apply tkeys_unique_NoDup in UB.
+    apply (dict_eqb_iff teq teq_eq json_eq) in E; auto. destruct E as [KS PW].
+    pose proof (json_all_obj _ _ KA) as KAl. pose proof (json_all_obj _ _ KB) as KBl.
+    pose proof (json_all_obj _ _ NA) as NAl. pose proof (json_all_obj _ _ NB) as NBl.
+    rewrite Forall_forall in H, KAl, KBl, NAl, NBl.
+    rewrite !dump_obj_eq.
+    assert (L : kv = [] <-> kv0 = []).
+    { split; intros ->; [destruct kv0 as [|[k v] ?]|destruct kv as [|[k v] ?]]; auto; exfalso; eapply (KS k); cbn; auto. }
+    destruct kv as [|p kv]; destruct kv0 as [|q kv0]; auto; try (destruct L as [L1 L2]; (discriminate (L1 eq_refl) || discriminate (L2 eq_refl))).
+    rewrite !dump_kv_ok.
+    2:{ apply Forall_forall. intros x I. apply json_nobool_nobad. auto. }
+    2:{ apply Forall_forall. intros x I. apply json_nobool_nobad. auto. }
+    cbn [bind]. set (g := fun p0 : text * json => (fst p0, dmp (S lvl) (snd p0))).
+    assert (X : sort_kb (map g (p :: kv)) = sort_kb (map g (q :: kv0))); [|unfold render_obj; rewrite X; reflexivity].
+    unfold sort_kb.
+    change (fun a b : text * bytes => text_leb (fst a) (fst b)) with (@kleb bytes).
+    apply isort_perm_eq.
+    2:{ rewrite map_map. cbn. exact UA. }
+    assert (G : forall (l1 l2 : list (text * json)), NoDup (map fst l1) -> NoDup (map fst l2) ->
+                (forall k v, In (k, v) l1 -> exists w, In (k, w) l2 /\ dmp (S lvl) v = dmp (S lvl) w) ->
+                forall x, In x (map g l1) -> In x (map g l2)).
+    { intros l1 l2 _ _ Hs x I. apply in_map_iff in I. destruct I as ([k v] & <- & I).
+      destruct (Hs k v I) as (w & Iw & Ew). apply in_map_iff. exists (k, w). split; auto. unfold g. cbn. rewrite Ew. reflexivity. }
+    assert (D : forall k v w, In (k, v) (p :: kv) -> In (k, w) (q :: kv0) -> dmp (S lvl) v = dmp (S lvl) w).
+    { intros k v w Iv Iw. unfold dmp.
+      assert (E1 : dump (S lvl) v = dump (S lvl) w); [|rewrite E1; reflexivity].
+      apply (H (k, v) Iv w).
+      - unfold json_strict. apply andb_true_iff. split; [apply (KAl (k, v)) | apply (NAl (k, v))]; auto.
+      - unfold json_strict. apply andb_true_iff. split; [apply (KBl (k, w)) | apply (NBl (k, w))]; auto.
+      - eapply PW; apply (nodup_aget teq teq_eq json_eq); eauto. }
+    apply NoDup_Permutation.
+    + apply (NoDup_map_inv fst). rewrite map_map. exact UA.
+    + apply (NoDup_map_inv fst). rewrite map_map. exact UB.
+    + intro x. split; apply G; auto.
+      * intros k v I. destruct (key_aget_some teq teq_eq k (q :: kv0)) as [w W].
+        { apply KS. apply (in_map fst) in I. exact I. }
+        apply (aget_In teq teq_eq) in W. eauto.
+      * intros k w I. destruct (key_aget_some teq teq_eq k (p :: kv)) as [v W].
+        { apply KS. apply (in_map fst) in I. exact I. }
+        apply (aget_In teq teq_eq) in W. exists v. split; auto. symmetry. eauto.
+Qed.
+
+(* ================================================================================================ *)
+(* C19_eq_bytes_partial — part 2: the DOM writer reads an options dict only through lookups and its key set *)
+(* ================================================================================================ *)
+Definition dopts_lk (a b : dopts) : Prop := forall k, assoc_get beq k a = assoc_get beq k b.
+
+Lemma lk_keys : forall a b, dopts_lk a b -> forall k, In k (map fst a) <-> In k (map fst b).
+Proof.
+  intros a b L k. pose proof (aget_None_notin beq beq_eq k a) as Ha. pose proof (aget_None_notin beq beq_eq k b) as Hb.
+  rewrite (L k) in Ha.
+  destruct (in_dec (list_eq_dec Byte.byte_eq_dec) k (map fst a)); destruct (in_dec (list_eq_dec Byte.byte_eq_dec) k (map fst b)); tauto.
+Qed.
+Lemma only_keys_spec : forall o l, only_keys o l = true <-> forall k, In k (map fst o) -> existsb (fun a => beq k (B a)) l = true.
+Proof.
+  intros o l. unfold only_keys. rewrite forallb_forall. split.
+  - intros H k I. apply in_map_iff in I. destruct I as (p & <- & I). auto.
+  - intros H p I. apply H. apply in_map. auto.
+Qed.
+Lemma lk_only_keys : forall a b l, dopts_lk a b -> only_keys a l = only_keys b l.
+Proof.
+  intros a b l L. pose proof (lk_keys _ _ L) as K.
+  destruct (only_keys a l) eqn:E1; destruct (only_keys b l) eqn:E2; auto.
+  - rewrite only_keys_spec in E1. assert (X : only_keys b l = true); [|congruence]. apply only_keys_spec. intros k I. apply E1, K, I.
+  - rewrite only_keys_spec in E2. assert (X : only_keys a l = true); [|congruence]. apply only_keys_spec. intros k I. apply E2, K, I.
+Qed.
+Lemma lk_kw : forall a b k, dopts_lk a b -> kw a k = kw b k.
+Proof. intros a b k L. unfold kw. rewrite (L (B k)). reflexivity. Qed.
+Lemma lk_kw_opt : forall a b k, dopts_lk a b -> kw_opt a k = kw_opt b k.
+Proof. intros a b k L. unfold kw_opt. apply L. Qed.
+Lemma adel_keys : forall (o : dopts) k k', In k' (map fst (assoc_del beq k o)) <-> In k' (map fst o) /\ k' <> k.
+Proof.
+  induction o as [|[k0 v0] o IH]; cbn; intros k k'; [tauto|].
+  destruct (beq k k0) eqn:E.
+  - apply beq_eq in E. subst k0. rewrite IH. split; [tauto|]. intros [[F|F] N]; [congruence|tauto].
+  - cbn. rewrite IH. split; [|tauto]. intros [F|F]; [|tauto]. subst. split; auto. intro; subst. rewrite beq_refl in E. discriminate.
+Qed.
+Lemma nonempty_keys : forall (o : dopts), nonempty o = true <-> exists k, In k (map fst o).
+Proof. destruct o as [|[k v] o]; cbn; split; try discriminate; eauto. intros [k []]. Qed.
+Lemma lk_rest : forall a b k1 k2, dopts_lk a b ->
+  nonempty (assoc_del beq k1 (assoc_del beq k2 a)) = nonempty (assoc_del beq k1 (assoc_del beq k2 b)).
+Proof.
+  intros a b k1 k2 L. pose proof (lk_keys _ _ L) as K.
+  assert (X : forall a b, (forall k, In k (map fst a) <-> In k (map fst b)) ->
+              nonempty (assoc_del beq k1 (assoc_del beq k2 a)) = true -> nonempty (assoc_del beq k1 (assoc_del beq k2 b)) = true).
+  { intros a0 b0 K0 H. apply nonempty_keys in H. destruct H as [k I]. apply nonempty_keys. exists k.
+    rewrite !adel_keys in *. rewrite <- K0. exact I. }
+  destruct (nonempty (assoc_del beq k1 (assoc_del beq k2 a))) eqn:E1; destruct (nonempty (assoc_del beq k1 (assoc_del beq k2 b))) eqn:E2; auto.
+  - rewrite (X a b) in E2; auto.
+  - rewrite (X b a) in E1; auto. intro; symmetry; auto.
+Qed.
+
+(* the renaming done by _get_options *)
+Definition ren (name : String.string) (k : bytes) : bytes :=
+  if beq k (B "type") && String.eqb name "diff" then B "diff_type"
+  else if beq k (B "format") && String.eqb name "meta" then B "meta_format"
+  else k.
+Definition renamed (name : String.string) (o : dopts) : dopts := map (fun p => (ren name (fst p), snd p)) o.
+(* the keys are still distinct after the renaming: unique keys, and not both 'type' and 'diff_type' (resp. 'format' and
+   'meta_format') — otherwise the later entry overrides the earlier one and the ORDER of the dict matters
+   (C19_eq_bytes_refuted_order) *)
+Definition remap_unique (name : String.string) (o : dopts) : bool := keys_unique (renamed name o).
+
+Lemma fold_set_get : forall (l acc : dopts) k, NoDup (map fst l) ->
+  assoc_get beq k (fold_left (fun acc p => assoc_set beq (fst p) (snd p) acc) l acc) =
+  match assoc_get beq k l with Some v => Some v | None => assoc_get beq k acc end.
+Proof.
+  induction l as [|[k0 v0] l IH]; cbn; intros acc k ND; auto.
+  inversion ND as [|? ? N1 N2]; subst. rewrite IH by auto.
+  destruct (beq k k0) eqn:E.
+  - apply beq_eq in E. subst k0. replace (assoc_get beq k l) with (@None wv).
+    + apply aget_set_same_b.
+    + symmetry. apply (aget_None_notin beq beq_eq). exact N1.
+  - destruct (assoc_get beq k l); auto. apply aget_set_other_b. intro; subst. rewrite beq_refl in E. discriminate.
+Qed.
+Lemma remap_fold : forall name o, remap name o = fold_left (fun acc p => assoc_set beq (fst p) (snd p) acc) (renamed name o) [].
+Proof.
+  intros name o. unfold remap, renamed. generalize (@nil (bytes * wv)). induction o as [|p o IH]; intro acc; cbn; auto.
+Qed.
+Lemma remap_get : forall name o k, remap_unique name o = true -> assoc_get beq k (remap name o) = assoc_get beq k (renamed name o).
+Proof.
+  intros name o k U. apply keys_unique_NoDup in U. rewrite remap_fold, fold_set_get by auto.
+  destruct (assoc_get beq k (renamed name o)); auto.
+Qed.
+Lemma remap_unique_keys : forall name o, remap_unique name o = true -> NoDup (map fst o).
+Proof.
+  intros name o U. apply keys_unique_NoDup in U. unfold renamed in U. rewrite map_map in U. cbn in U.
+  rewrite <- (map_map fst (ren name)) in U. eapply NoDup_map_inv; eauto.
+Qed.
+Lemma lk_renamed : forall name a b, remap_unique name a = true -> remap_unique name b = true -> dopts_lk a b ->
+  dopts_lk (renamed name a) (renamed name b).
+Proof.
+  intros name a b UA UB L.
+  assert (X : forall a b, remap_unique name a = true -> remap_unique name b = true -> dopts_lk a b ->
+              forall k v, assoc_get beq k (renamed name a) = Some v -> assoc_get beq k (renamed name b) = Some v).
+  { intros a0 b0 U0 U1 L0 k v H. apply (aget_In beq beq_eq) in H. unfold renamed in H. apply in_map_iff in H.
+    destruct H as ([k0 v0] & E & I). cbn in E. injection E as <- <-.
+    apply (nodup_aget beq beq_eq wv_eq) in I; [|eapply remap_unique_keys; eauto].
+    rewrite (L0 k0) in I. apply (aget_In beq beq_eq) in I.
+    apply (nodup_aget beq beq_eq wv_eq); [apply keys_unique_NoDup; exact U1|].
+    unfold renamed. apply in_map_iff. exists (k0, v0). auto. }
+  intro k. destruct (assoc_get beq k (renamed name a)) as [v|] eqn:E1.
+  - symmetry. eapply X; eauto.
+  - destruct (assoc_get beq k (renamed name b)) as [w|] eqn:E2; auto.
+    rewrite (X b a UB UA) with (v := w) in E1; auto. intro; symmetry; auto.
+Qed.
+Lemma lk_remap : forall name a b, remap_unique name a = true -> remap_unique name b = true -> dopts_lk a b ->
+  dopts_lk (remap name a) (remap name b).
+Proof. intros name a b UA UB L k. rewrite !remap_get by auto. apply lk_renamed; auto. Qed.
+
+(* sections that the writer cannot tell apart *)
+Definition meta_dump_eq (x y : list (text * json)) : Prop := is_nil x = is_nil y /\ json_dump (JObj x) = json_dump (JObj y).
+Definition psec_lk (a b : psec) : Prop := dopts_lk (p_opts a) (p_opts b) /\ p_content a = p_content b.
+Definition msec_lk (a b : msec) : Prop :=
+  dopts_lk (m_opts a) (m_opts b) /\ meta_dump_eq (m_content a) (m_content b) /\
+  remap_unique "meta" (m_opts a) = true /\ remap_unique "meta" (m_opts b) = true.
+Definition dsec_lk (a b : dsec) : Prop :=
+  dopts_lk (x_opts a) (x_opts b) /\ x_content a = x_content b /\
+  remap_unique "diff" (x_opts a) = true /\ remap_unique "diff" (x_opts b) = true.
+Definition file_lk (a b : dfile) : Prop := dopts_lk (f_opts a) (f_opts b) /\ msec_lk (f_meta a) (f_meta b) /\ dsec_lk (f_diff a) (f_diff b).
+Definition change_lk (a b : dchange) : Prop :=
+  dopts_lk (c_opts a) (c_opts b) /\ psec_lk (c_pre a) (c_pre b) /\ msec_lk (c_meta a) (c_meta b) /\ Forall2 file_lk (c_files a) (c_files b).
+Definition tree_lk (a b : dtree) : Prop :=
+  dopts_lk (d_opts a) (d_opts b) /\ psec_lk (d_pre a) (d_pre b) /\ msec_lk (d_meta a) (d_meta b) /\ Forall2 change_lk (d_changes a) (d_changes b).
+
+Lemma call_container_lk : forall n a b, dopts_lk a b -> call_container n a = call_container n b.
+Proof. intros n a b L. unfold call_container. rewrite (lk_only_keys a b), (lk_kw a b); auto. Qed.
+Lemma call_preamble_lk : forall a b, psec_lk a b -> call_preamble a = call_preamble b.
+Proof.
+  intros a b [L C]. unfold call_preamble. rewrite C. destruct (p_content b); auto. destruct (is_nil t); auto.
+  cbv zeta. rewrite (lk_only_keys _ _ _ L), !(lk_kw _ _ _ L), (lk_kw_opt _ _ _ L). reflexivity.
+Qed.
+Lemma call_diff_lk : forall a b, dsec_lk a b -> call_diff a = call_diff b.
+Proof.
+  intros a b (L & C & UA & UB). unfold call_diff. rewrite C. destruct (x_content b); auto. destruct (is_nil b0); auto.
+  cbv zeta. pose proof (lk_remap "diff" _ _ UA UB L) as LR.
+  rewrite (lk_only_keys _ _ _ LR), !(lk_kw _ _ _ LR). reflexivity.
+Qed.
+Lemma exec_meta_lk : forall a b, msec_lk a b -> forall s, exec (call_meta a) s = exec (call_meta b) s.
+Proof.
+  intros a b (L & [N D] & UA & UB) s. unfold call_meta. rewrite N. destruct (is_nil (m_content b)) eqn:NB; auto.
+  cbv zeta. pose proof (lk_remap "meta" _ _ UA UB L) as LR.
+  rewrite (lk_only_keys _ _ _ LR), (lk_kw _ _ _ LR), (lk_kw_opt _ _ _ LR).
+  destruct (negb (only_keys (remap "meta" (m_opts b)) ["encoding"; "meta_format"])); auto.
+  destruct (m_content a) as [|pa ma]; [discriminate|]. destruct (m_content b) as [|pb mb]; [discriminate|].
+  unfold exec, do_call. cbn [wv_truthy nonempty negb]. unfold json_dump in D. rewrite D. reflexivity.
+Qed.
+
+Lemma seq_all_ext : forall l l', Forall2 (fun f g => forall s, f s = g s) l l' -> forall s, seq_all l s = seq_all l' s.
+Proof.
+  induction 1 as [|f g l l' Hfg F IH]; intro s; auto.
+  cbn. unfold seqw. rewrite Hfg. destruct (g s) as [s1 [u|e]]; auto.
+Qed.
+Lemma write_file_lk : forall a b, file_lk a b -> forall s, write_file a s = write_file b s.
+Proof.
+  intros a b (L & M & D). unfold write_file. apply seq_all_ext.
+  constructor; [intro s; rewrite (call_container_lk _ _ _ L); reflexivity|].
+  constructor; [apply exec_meta_lk; auto|].
+  constructor; [intro s; rewrite (call_diff_lk _ _ D); reflexivity|]. constructor.
+Qed.
+Lemma Forall2_map2 : forall {A C} (R : A -> A -> Prop) (S : C -> C -> Prop) (f : A -> C) l l',
+  (forall x y, R x y -> S (f x) (f y)) -> Forall2 R l l' -> Forall2 S (map f l) (map f l').
+Proof. induction 2; cbn; constructor; auto. Qed.
+Lemma write_change_lk : forall a b, change_lk a b -> forall s, write_change a s = write_change b s.
+Proof.
+  intros a b (L & P & M & F). unfold write_change. apply seq_all_ext.
+  constructor; [intro s; rewrite (call_container_lk _ _ _ L); reflexivity|].
+  constructor; [intro s; rewrite (call_preamble_lk _ _ P); reflexivity|].
+  constructor; [apply exec_meta_lk; auto|].
+  eapply Forall2_map2; [|exact F]. intros x y Hxy. apply write_file_lk; auto.
+Qed.
+Theorem dom_write_lk : forall a b, tree_lk a b -> dom_write a = dom_write b.
+Proof.
+  intros a b (L & P & M & F). unfold dom_write. cbv zeta.
+  rewrite (L (B "version")), (L (B "encoding")), (lk_rest _ _ _ _ L).
+  destruct (nonempty _); auto. destruct (writer_init _ _) as [s0 [u|e]]; auto.
+  rewrite (seq_all_ext _ ([exec (call_preamble (d_pre b)); exec (call_meta (d_meta b))] ++ map write_change (d_changes b))); auto.
+  constructor; [intro s; rewrite (call_preamble_lk _ _ P); reflexivity|].
+  constructor; [apply exec_meta_lk; auto|].
+  eapply Forall2_map2; [|exact F]. intros x y Hxy. apply write_change_lk; auto.
+Qed.
